@@ -154,6 +154,10 @@ def gen_cases(tier, seed):
     for N in range(1, 6):
         for via in ("arg", "module"):
             keys.append(dict(part="batched", N=N, via=via))
+    # hidden state: the value for a system must not depend on which systems were evaluated
+    # before it in the same process (one fresh interpreter per first system)
+    for first in SEQ_SYSTEMS:
+        keys.append(dict(part="sequence", first=first))
     # default worker count: every answer of the environment for the CPU affinity
     for cpus in (1, 2, 3, 5, 16, 64):
         keys.append(dict(part="default_workers", cpus=cpus, N=3))
@@ -220,7 +224,58 @@ def mindex(A, sysname):
     return float(d.misorientation_index(np.ascontiguousarray(A), getattr(g.LatticeSystem, sysname)))
 
 
+SEQ_SYSTEMS = ["triclinic", "monoclinic", "orthorhombic", "tetragonal", "hexagonal"]
+
+
+def seq_child(first):
+    """Runs in a FRESH interpreter: evaluate `first`, then every other system, on the same
+    two orientation sets; print the values."""
+    order = [first] + [x for x in SEQ_SYSTEMS if x != first]
+    out = {}
+    for sysname in order:
+        for sname in ("random", "single"):
+            A = SETS[sname](10)
+            try:
+                out[f"{sysname}|{sname}"] = mindex(A, sysname)
+            except BaseException as e:
+                out[f"{sysname}|{sname}"] = "exc:" + type(e).__name__
+    return out
+
+
+def run_sequence(key):
+    import json
+    import os
+    import subprocess
+    import sys
+
+    res = empty_result()
+    out = subprocess.run(
+        [sys.executable, "-m", "props.c14", key["first"]],
+        capture_output=True,
+        text=True,
+        cwd=os.path.dirname(os.path.dirname(os.path.abspath(__file__))),
+    )
+    vals = None
+    for line in out.stdout.splitlines():
+        if line.startswith("RESULT "):
+            vals = json.loads(line[7:])
+    if vals is None:
+        raise RuntimeError("sequence child failed: " + out.stderr[-1500:])
+    res["n"] = res["trans"] = len(vals)
+    res["states"] = 1
+    for k, v in vals.items():
+        # numbers travel to finalize() through the notes (unique names => sum == value)
+        res["notes"][f"seqval|first={key['first']}|{k}"] = v if isinstance(v, float) else float("nan")
+    res["nontrivial"].append(digest(key))
+    res["outcomes"].append(digest(sorted(vals.items())))
+    res["obs"] = digest(sorted(vals.items()))
+    res["sample"] = {"case": key, "values": vals}
+    return res
+
+
 def run_case(key):
+    if key["part"] == "sequence":
+        return run_sequence(key)
     return {"index": run_index, "theory": run_theory, "extreme": run_extreme, "batched": run_batched, "default_workers": run_default_workers}[key["part"]](key)
 
 
@@ -604,4 +659,34 @@ def finalize(agg, tier, seed):
             runs += 1
             if not np.array_equal(out, direct):
                 viol.append({"clause": "real_pool_conformance", "key": {"part": "batched", "N": N, "W": W, "via": "real"}, "detail": {"got": out, "expected": direct}})
+    # hidden state: M(system, set) evaluated after other systems vs evaluated first
+    seq = {k: v for k, v in agg["notes"].items() if k.startswith("seqval|")}
+    ncmp = 0
+    for k, v in seq.items():
+        _, first, sysname, sname = k.split("|")
+        first = first.split("=")[1]
+        ref = seq.get(f"seqval|first={sysname}|{sysname}|{sname}")
+        if ref is None or first == sysname:
+            continue
+        ncmp += 1
+        same = (v == ref) or (np.isnan(v) and np.isnan(ref))
+        if not same:
+            viol.append({"clause": "order_of_evaluation", "key": {"part": "sequence", "system": sysname, "set": sname, "evaluated_after": first}, "detail": {"value_after": v, "value_first": ref}})
+    for k in seq:
+        agg["notes"].pop(k, None)
+    agg["clauses"]["order_of_evaluation"] = ncmp
     return {"traces_validated_against_impl": runs, "real_pool_runs": runs, "viol": viol}
+
+
+if __name__ == "__main__":
+    import json
+    import os
+    import sys
+
+    from mc.runner import quiet_pydrex
+
+    alph.configure(int(os.environ.get("VERIF_SEED", "0")), os.environ.get("VERIF_TIER", "quick"))
+    import pydrex  # noqa
+
+    quiet_pydrex()
+    print("RESULT " + json.dumps(seq_child(sys.argv[1])))
